@@ -17,6 +17,7 @@ import (
 	"strings"
 	"sync"
 	"time"
+	"unsafe"
 )
 
 // Chooser is the explorer's interface.
@@ -44,6 +45,7 @@ type Thread struct {
 	hasDeadline bool
 	client      bool // a thread whose completion the harness waits for
 	killed      bool
+	vc          VC // vector clock (race detection)
 }
 
 // S is the scheduler state of one execution.
@@ -73,6 +75,12 @@ type S struct {
 	// (delay-bounded scheduling); otherwise only preemptions of a runnable thread cost (context bounding).
 	DelayBounded bool
 	wg           sync.WaitGroup
+	// RaceDetect turns on happens-before race detection (see race.go); Race is the first race found.
+	RaceDetect bool
+	Race       *RaceReport
+	shadow     map[unsafe.Pointer]*shadow
+	inTimer    bool // a timer callback is running (no current thread): clocks come from timerVC
+	timerVC    VC
 }
 
 type timer struct {
@@ -80,6 +88,7 @@ type timer struct {
 	fire   func()
 	active bool
 	id     int
+	vc     VC // clock of the thread that armed the timer
 }
 
 var (
@@ -143,6 +152,11 @@ func (s *S) newThread(name string, client bool) *Thread {
 	t := &Thread{ID: len(s.threads), Name: name, wake: make(chan struct{}, 1), client: client}
 	t.enabled = func() bool { return true }
 	s.threads = append(s.threads, t)
+	if s.RaceDetect {
+		// go statement (or timer callback) happens before the start of the new thread
+		t.vc = s.Snapshot()
+		t.tick()
+	}
 	return t
 }
 
@@ -371,7 +385,9 @@ func (s *S) fireDue() {
 		}
 		if due != nil {
 			due.active = false
+			s.inTimer, s.timerVC = true, due.vc.Copy()
 			due.fire()
+			s.inTimer = false
 			fired = true
 		}
 		if !fired {
@@ -382,7 +398,7 @@ func (s *S) fireDue() {
 
 // AddTimer registers fire to run (inside the scheduler, no thread) when virtual time reaches when.
 func (s *S) AddTimer(when time.Time, fire func()) *timer {
-	tm := &timer{when: when, fire: fire, active: true, id: len(s.timers)}
+	tm := &timer{when: when, fire: fire, active: true, id: len(s.timers), vc: s.Snapshot()}
 	s.timers = append(s.timers, tm)
 	return tm
 }
@@ -395,7 +411,12 @@ func (s *S) StopTimer(tm *timer) bool {
 }
 
 // ResetTimer re-arms a timer.
-func (s *S) ResetTimer(tm *timer, when time.Time) { tm.when, tm.active = when, true }
+func (s *S) ResetTimer(tm *timer, when time.Time) {
+	tm.when, tm.active = when, true
+	if s.RaceDetect {
+		tm.vc = s.Snapshot()
+	}
+}
 
 func (s *S) describeBlocked() string {
 	var parts []string
